@@ -348,7 +348,7 @@ Section Loops.
         | O => (acc, e, SNA)
         | S fuel' =>
           let e0 := env_set var (VInt cur) true e in
-          let acc := match trips, sep with O, _ | _, [] => acc | _, _ => acc ++ sep end in
+          let acc := match trips, sep with O, _ | _, [] => acc | _, _ => acc ++ region_of e0 sep end in
           let qb := e_qb e0 in
           let '(o, e1, s) := bodyf (set_eqb true e0) in
           let e1 := set_eqb qb e1 in
@@ -387,7 +387,7 @@ Section Loops.
       if 0 <? e_brk e0 then
         let e1 := loop_done e0 0 in (acc, set_ebrk (Z.max (e_brk e1) saved) e1, SNone)
       else
-        let acc := match trips, sep with O, _ | _, [] => acc | _, _ => acc ++ sep end in
+        let acc := match trips, sep with O, _ | _, [] => acc | _, _ => acc ++ region_of e0 sep end in
         let '(o, e1, s) := bodyf e0 in
         match s with
         | SNone | SCont => rloop_ref r e1 (acc ++ o) (S calls) (S trips)
@@ -475,7 +475,7 @@ Section Ref.
         end
       end
     | ABreak lazy n has_cond c =>
-      let fire := (([] : bytes), set_ebrk n e, if lazy then SLazy else SBrk) in
+      let fire := (([] : bytes), set_ebrk (Z.max n (e_brk e)) e, if lazy then SLazy else SBrk) in
       if has_cond then
         match ref_cond flits e c with
         | CB true => fire
